@@ -479,6 +479,12 @@ func allOfMotif(r *mon.Rng) *model.Schema {
 	if r.Chance(1, 3) {
 		cc.Props = append(cc.Props, model.P("c2", model.Bool(true)))
 	}
+	if r.Chance(1, 3) {
+		// both parents admit undeclared keys of the same kind; the children say nothing about it
+		ap := mon.Pick(r, []string{"string", "integer", "any", "boolean"})
+		b.Rules = append(b.Rules, model.RStr("additionalProperties", ap))
+		cc.Rules = append(cc.Rules, model.RStr("additionalProperties", ap))
+	}
 	d := model.Obj(model.P("d", opt(model.Int("3")))).With(model.RAllOf("@t0", "@t1"))
 	m := model.Obj(model.P("m", opt(model.Int("4")))).With(model.RAllOf("@t0"))
 	n := model.Obj(model.P("n", opt(model.Int("5")))).With(model.RAllOf("@t3", "@t1"))
